@@ -14,9 +14,13 @@
    pipeline [firmware_outputs_ir false].
 
    [nstep true] is the variant with a shortcut that hands the environment's own object to the node when no entry needs
-   coercion (a list of plain ints): the node then aliases the tracked list, and a later append / remove - in the same
-   block or in any nested block, the store is shared - changes what an EARLIER flash_pattern call bakes in.  It exists to
-   show that the copy is forced.  No proofs in this file. *)
+   coercion (a list of plain ints): the node then aliases the tracked list, and a later append / remove in the same
+   block changes what an EARLIER flash_pattern call bakes in.  It exists to show that the copy is forced.  (Since the
+   repair of the stale-fold findings a nested block works on private copies of the tracked lists - as in
+   ConstEnv.tstep: the child's store is dropped, the node heap is not -, so a mutation in a nested block no longer
+   reaches an object of the enclosing scope; an alias node created INSIDE a nested block is resolved against the
+   enclosing scope's object, which this hypothetical variant is not used for.)  Scripts without function definitions:
+   the list [vol] of ConstEnv is empty.  No proofs in this file. *)
 From Coq Require Import ZArith List Bool.
 From RV Require Import Base.Wire Base.Text Lang.PyAst Lang.PySem Lang.ConstEval Lang.ConstEnv.
 Import ListNotations.
@@ -69,18 +73,21 @@ Fixpoint nstep (alias : bool) (s : stmt) (te : tenv) (st : store) (nh : nheap) {
   match s with
   | SIf body orelse =>
       match nblock body te st nh with
-      | Some (te1, st1, nh1, r1) =>
-          match nblock orelse te st1 nh1 with
-          | Some (te2, st2, nh2, r2) => Some (promote (promote te te1 []) te2 [], st2, nh2, [RIf r1 r2])
+      | Some (te1, _, nh1, r1) =>
+          match nblock orelse te st nh1 with
+          | Some (te2, _, nh2, r2) =>
+              Some (forget (writes s) (promote (promote te te1 []) te2 []), st, nh2, [RIf r1 r2])
           | None => None end
       | None => None end
   | SWhile body =>
-      match nblock body te st nh with
-      | Some (te1, st1, nh1, r1) => Some (promote te te1 [], st1, nh1, [RWhile r1])
+      let te0 := forget (writes s) te in
+      match nblock body te0 st nh with
+      | Some (te1, _, nh1, r1) => Some (promote te0 te1 [], st, nh1, [RWhile r1])
       | None => None end
   | SFor x body =>
-      match nblock body ((x, TMark) :: te) st nh with
-      | Some (te1, st1, nh1, r1) => Some (promote te te1 [x], st1, nh1, [RFor x r1])
+      let te0 := forget (writes s) te in
+      match nblock body ((x, TMark) :: te0) st nh with
+      | Some (te1, _, nh1, r1) => Some (promote te0 te1 [x], st, nh1, [RFor x r1])
       | None => None end
   | _ => nsimple alias s te st nh
   end.
